@@ -237,6 +237,70 @@ def gen_deco(rng, cid):
     return dict(id=cid, rings=rings, regular=flags["regular"])
 
 
+def gen_touch(rng, cid, k):
+    """regularized configurations whose rings TOUCH at a vertex: a plate A with a hole H whose apex lies on A's bottom
+    edge, and a thin U-shaped bracket B (smaller area, bigger bbox than H) whose spike tip is that same point.
+    Every ring's stored first vertex is rotated explicitly (k drives the rotation of H and B)."""
+    w = rng.choice([8, 10, 12, 16])
+    ox, oy = 3, 4
+    xm = ox + rng.randrange(3, w - 2)
+    a = rng.randrange(1, min(xm - ox, ox + w - xm))
+    hh = rng.randrange(2, w - 2)
+    H = [(xm, oy), (xm - a, oy + hh), (xm + a, oy + hh)]
+    if rng.random() < 0.4:
+        H = [(xm, oy), (xm - a, oy + hh), (xm, oy + hh + 1), (xm + a, oy + hh)]
+    A = [(ox, oy), (xm, oy), (ox + w, oy), (ox + w, oy + w), (ox, oy + w)]
+    ya = oy + hh + 1 + rng.randrange(0, 3)
+    B = [(ox - 2, oy - 3), (ox + w + 2, oy - 3), (ox + w + 2, ya), (ox + w + 1, ya), (ox + w + 1, oy - 2), (xm + 1, oy - 2),
+         (xm, oy), (xm - 1, oy - 2), (ox - 1, oy - 2), (ox - 1, ya), (ox - 2, ya)]
+    kind = rng.randrange(5)
+    rings = {0: [A, H, B], 1: [A, H], 2: [A, B], 3: [A, H, B], 4: [A, H, B]}[kind]
+    if kind == 3 and a >= 2 and hh >= 4:        # an island inside the hole, not touching anything
+        rings = rings + [[(xm, oy + hh - 2), (xm + 1, oy + hh - 2), (xm + 1, oy + hh - 1), (xm, oy + hh - 1)]]
+    if kind == 4 and xm - a - ox >= 3:          # a second hole of A that touches nothing
+        rings = rings + [[(ox + 1, oy + w - 3), (ox + 1, oy + w - 1), (ox + 2, oy + w - 1), (ox + 2, oy + w - 3)]]
+    M = 40
+    q = rng.randrange(4)
+    rot = [lambda p: p, lambda p: (M - p[1], p[0]), lambda p: (M - p[0], M - p[1]), lambda p: (p[1], M - p[0])][q]
+    out = []
+    for idx, r in enumerate(rings):
+        r = [rot(p) for p in r]
+        off = (k + idx * 3) % len(r) if idx != 1 else k % len(r)     # the hole's start vertex runs through all its vertices
+        out.append(r[off:] + r[:off])
+    rng.shuffle(out)
+    return dict(id=cid, rings=out, regular=True, touching=True)
+
+
+def strict_inside(p, r):
+    """exact: p strictly inside ring r (p not on the boundary); p, r integer points"""
+    n, ins = len(r), False
+    for i in range(n):
+        a, b = r[i], r[(i + 1) % n]
+        cr = (b[0] - a[0]) * (p[1] - a[1]) - (b[1] - a[1]) * (p[0] - a[0])
+        if cr == 0 and min(a[0], b[0]) <= p[0] <= max(a[0], b[0]) and min(a[1], b[1]) <= p[1] <= max(a[1], b[1]):
+            return False
+        if (a[1] > p[1]) != (b[1] > p[1]):
+            # p.x < a.x + (b.x-a.x)(p.y-a.y)/(b.y-a.y)
+            lhs, rhs = (p[0] - a[0]) * (b[1] - a[1]), (b[0] - a[0]) * (p[1] - a[1])
+            if (lhs < rhs) if b[1] > a[1] else (lhs > rhs):
+                ins = not ins
+    return ins
+
+
+def interior_sample(r, scale):
+    """a point strictly inside ring r given in coordinates multiplied by `scale` (scale divisible by 3):
+    the centroid of a vertex triple that falls strictly inside"""
+    rs = [(scale * x, scale * y) for x, y in r]
+    n = len(r)
+    for i in range(n):
+        for j in (1, 2, 3):
+            tri = (r[i - 1], r[i], r[(i + j) % n])
+            c = (scale // 3 * (tri[0][0] + tri[1][0] + tri[2][0]), scale // 3 * (tri[0][1] + tri[1][1] + tri[2][1]))
+            if strict_inside(c, rs):
+                return c
+    return None
+
+
 def area2(r):
     return sum(r[i][0] * r[(i + 1) % len(r)][1] - r[(i + 1) % len(r)][0] * r[i][1] for i in range(len(r)))
 
@@ -392,7 +456,8 @@ def corr_integer(cx, rng, run_both, drive, st, bump):
     nS, nH, nD = cx.pick(500, 6000), cx.pick(500, 6000), cx.pick(300, 3000)
     simp = [gen_simp(rng, "s%d" % i) for i in range(nS)]
     hull = [gen_hull(rng, "h%d" % i) for i in range(nH)]
-    deco = [gen_deco(rng, "d%d" % i) for i in range(nD)]
+    deco = [gen_deco(rng, "d%d" % i) if i % 3 else gen_touch(rng, "d%d" % i, i // 3) for i in range(nD)]
+    rins = vp.build_harness("c12_rins", "seq", link_lib=True)
     hl, dl = [], []
     ir = lambda r: "%d %s" % (len(r), " ".join("%d %d" % p for p in r))
     xr = lambda r: "%d %s" % (len(r), " ".join(hx(x) + " " + hx(y) for x, y in r))
@@ -407,12 +472,32 @@ def corr_integer(cx, rng, run_both, drive, st, bump):
         c["kept_idx"] = [i for i, r in enumerate(c["rings"]) if len(r) >= 3 and area2(r) != 0]
         hl.append("DECO %s %d %s" % (c["id"], len(c["rings"]), " ".join(ir(r) for r in c["rings"])))
         dl.append("DECO %s %d %s" % (c["id"], len(kept), " ".join(xr(r) for r in kept)))
+    rl = []
+    for c in deco:
+        kept = [c["rings"][i] for i in c["kept_idx"]]
+        rl.append("RINS r%s %d %s" % (c["id"], len(kept), " ".join(ir(r) for r in kept)))
+        dl.append("RINS r%s %d %s" % (c["id"], len(kept), " ".join(xr(r) for r in kept)))
     H, D, crashes = run_both(hl, dl)
     for cl, rc, err in crashes:
         cx.violation("xsec-crash", "harness crashed (rc=%s) on %s: %s" % (rc, cl[:80], err[-200:]), {"case": cl})
+    kl = lambda l: l.split()[1] if l.strip() else None
+    out_r, crashes_r = vp.run_cases(rins, rl, kl, kl, timeout=900)
+    for cl, rc, err in crashes_r:
+        cx.violation("xsec-crash", "RingInside harness crashed (rc=%s) on %s: %s" % (rc, cl[:80], err[-200:]), {"case": cl})
+    RI = {l.split()[1]: l.split()[2:] for l in out_r.splitlines() if l.strip()}
     st["evals"] += len(hl)
     oracle_lines, pending = [], []
-    mism = {"SIMP": 0, "HULL": 0, "DECO": 0}
+    mism = {"SIMP": 0, "HULL": 0, "DECO": 0, "RINGINSIDE": 0}
+    for c in deco:
+        a, b = RI.get("r" + c["id"]), D.get("r" + c["id"])
+        if a is None or b is None:
+            cx.broke("corr:C12/ring_inside#%s" % c["id"], "no RingInside verdicts (impl=%s model=%s)" % (a is not None, b is not None)); continue
+        if a != b[2:]:
+            mism["RINGINSIDE"] += 1
+            if mism["RINGINSIDE"] <= 3:
+                kept = [c["rings"][i] for i in c["kept_idx"]]
+                cx.broke("corr:C12/ring_inside#%s" % c["id"], "BoxInside&&RingInside verdicts differ from the ported exact test (all vertices in the closed ring): "
+                         "rings=%s impl=%s model=%s" % (kept, " ".join(a[1:]), " ".join(b[3:])))
     for c in simp:
         h, d = H.get(c["id"]), D.get(c["id"])
         if h is None or d is None:
@@ -481,9 +566,15 @@ def corr_integer(cx, rng, run_both, drive, st, bump):
         for r in c["rings"]:
             if len(r) >= 3:
                 xs = [p[0] for p in r]; ys = [p[1] for p in r]
-                samples.add((4 * min(xs) + 1, 4 * min(ys) + 1)); samples.add((2 * (min(xs) + max(xs)) + 1, 4 * min(ys) + 1))
-                samples.add((4 * max(xs) - 1, 4 * max(ys) - 1))
-        sc = lambda r: [(4 * x, 4 * y) for x, y in r]
+                samples.add((12 * min(xs) + 3, 12 * min(ys) + 3)); samples.add((6 * (min(xs) + max(xs)) + 3, 12 * min(ys) + 3))
+                samples.add((12 * max(xs) - 3, 12 * max(ys) - 3))
+                if area2(r) != 0:
+                    ip = interior_sample(r, 12)          # strictly inside this ring (never a vertex / boundary point)
+                    if ip is not None:
+                        samples.add(ip)
+        if c.get("touching"):
+            bump("decompose touching-at-a-vertex configurations")
+        sc = lambda r: [(12 * x, 12 * y) for x, y in r]
         bad_idx = any(i < 0 for cc in comps for i in cc)
         oracle_lines.append("DCHK %s %d %s %d %s %d %s" % (
             c["id"], len(whole), " ".join(xr(sc(r)) for r in whole), len(comps),
@@ -570,7 +661,10 @@ def api_checks(cx, rng, exe, drive, st, bump):
         for _ in range(rng.choice([1, 2, 3, 4])):
             cxx, cyy = q8(30 + 20 * rng.random()), q8(30 + 20 * rng.random())
             polys += poly_shapes(rng, cxx, cyy, rng.choice([1.0, 2.0, 4.0]))
-        if rng.random() < 0.5:                      # island inside a frame's hole
+        if i % 3 == 0:                              # rings touching at a vertex (plate + cut-out + bracket), any rotation / scale
+            g = rng.choice([1.0, 0.5, 0.25])
+            polys = [[(20.0 + g * x, 18.0 + g * y) for x, y in r] for r in gen_touch(rng, "t", i // 3)["rings"]]
+        if i % 3 != 0 and rng.random() < 0.5:       # island inside a frame's hole
             polys += [sq(8.0, 8.0, 20.0, 20.0), sq(10.0, 10.0, 18.0, 18.0, False), sq(12.0, 12.0, 16.0, 16.0), sq(13.0, 13.0, 15.0, 15.0, False)]
         cid = "e%d" % i
         lines.append("DECOAPI %s %d %s" % (cid, len(polys), " ".join(ring_bits(r) for r in polys)))
